@@ -64,9 +64,9 @@ func buildModCatalog() []mCfg {
 	c = append(c, mCfg{stacking: 6, dur: 2, count: 1, max: 5, cadd: 1, status: 1, hooks: map[string][]mAct{"OnAdd": {{kind: "D", name: 0, a: 1}}}})                                    // 22
 	c = append(c, mCfg{stacking: 3, dur: 3, status: 2, dispel: true, hooks: map[string][]mAct{"OnDispel": {{kind: "A", name: 3, a: 1, b: 1}}}})                                        // 23
 	c = append(c, mCfg{stacking: 3, dur: 2, status: 1, hooks: map[string][]mAct{"OnPropertyChange": {{kind: "D", name: 24, a: 0}}}})                                                   // 24: observes property changes
-	c = append(c, mCfg{stacking: 3, dur: 2, status: 1, dispel: true, hooks: map[string][]mAct{"OnExtendDuration": {{kind: "S"}}}})           // 25: leaves when extended
-	c = append(c, mCfg{stacking: 3, dur: 3, status: 2, dispel: true, hooks: map[string][]mAct{"OnExtendDuration": {{kind: "R", name: 14}}}}) // 26: removes an earlier modifier when extended
-	c = append(c, mCfg{stacking: 3, count: 2, max: 6, cadd: 1, status: 1, hooks: map[string][]mAct{"OnExtendCount": {{kind: "S"}}}})         // 27: leaves when its count is extended
+	c = append(c, mCfg{stacking: 3, dur: 2, status: 1, dispel: true, hooks: map[string][]mAct{"OnExtendDuration": {{kind: "S"}}}})                                                     // 25: leaves when extended
+	c = append(c, mCfg{stacking: 3, dur: 3, status: 2, dispel: true, hooks: map[string][]mAct{"OnExtendDuration": {{kind: "R", name: 14}}}})                                           // 26: removes an earlier modifier when extended
+	c = append(c, mCfg{stacking: 3, count: 2, max: 6, cadd: 1, status: 1, hooks: map[string][]mAct{"OnExtendCount": {{kind: "S"}}}})                                                   // 27: leaves when its count is extended
 	return c
 }
 
@@ -234,6 +234,51 @@ func parseStats(s string) info.PropMap {
 	return pm
 }
 
+// weakness entries travel as <damage type>:<0|1> joined by '|' ("-" for none); explicit false entries matter
+func parseWeak(s string) info.WeaknessMap {
+	if s == "" || s == "-" {
+		return nil
+	}
+	m := info.NewWeaknessMap()
+	for _, t := range strings.Split(s, "|") {
+		kv := strings.SplitN(t, ":", 2)
+		k, _ := strconv.Atoi(kv[0])
+		m[model.DamageType(k)] = len(kv) > 1 && kv[1] == "1"
+	}
+	return m
+}
+
+func weakStr(m info.WeaknessMap) string {
+	var ks []int
+	for k := range m {
+		ks = append(ks, int(k))
+	}
+	sort.Ints(ks)
+	var out []string
+	for _, k := range ks {
+		b := "0"
+		if m[model.DamageType(k)] {
+			b = "1"
+		}
+		out = append(out, fmt.Sprintf("%d:%s", k, b))
+	}
+	if len(out) == 0 {
+		return "-"
+	}
+	return strings.Join(out, "|")
+}
+
+// the units' own weaknesses (unit 2 carries an explicit "not weak" entry)
+func modBaseWeak(id int) info.WeaknessMap {
+	switch id {
+	case 1:
+		return info.WeaknessMap{model.DamageType_FIRE: true, model.DamageType_ICE: false}
+	case 2:
+		return info.WeaknessMap{model.DamageType_QUANTUM: false}
+	}
+	return nil
+}
+
 func (modComp) Exec(c *wire.Case, w *wire.Writer) {
 	w.Case(c.ID)
 	defer w.End()
@@ -252,7 +297,7 @@ func (modComp) Exec(c *wire.Case, w *wire.Writer) {
 	for id := 1; id <= 3; id++ {
 		bs := info.PropMap{prop.ATKBase: 1000, prop.ATKPercent: 0.1 * float64(id), prop.AllDamageReduce: 0.1, prop.SPDBase: 100}
 		base[key.TargetID(id)] = bs
-		_ = eng.attr.AddTarget(key.TargetID(id), info.Attributes{Level: 1, HPRatio: 1, MaxEnergy: 100, BaseStats: bs})
+		_ = eng.attr.AddTarget(key.TargetID(id), info.Attributes{Level: 1, HPRatio: 1, MaxEnergy: 100, BaseStats: bs, Weakness: modBaseWeak(id)})
 	}
 	// one description (and its maps) reused for several units, as team-wide effects do
 	shared := map[string]info.PropMap{}
@@ -285,7 +330,7 @@ func (modComp) Exec(c *wire.Case, w *wire.Writer) {
 				}
 				ok, err := sess.add(t, info.Modifier{Name: nm, Source: key.TargetID(op.Int("src")), Duration: op.Int("dur"),
 					Count: float64(op.Int("count")), MaxCount: float64(op.Int("max")), CountAddWhenStack: float64(op.Int("cadd")),
-					TickImmediately: op.Bool("imm"), Stats: st})
+					TickImmediately: op.Bool("imm"), Stats: st, Weakness: parseWeak(op.Str("weak"))})
 				if err != nil {
 					kind := "invalid_target"
 					if strings.Contains(err.Error(), "source") {
@@ -338,7 +383,7 @@ func (modComp) Exec(c *wire.Case, w *wire.Writer) {
 		for id := 1; id <= 3; id++ {
 			var uids, names, srcs, durs, counts, maxs, renew, cadds []int
 			var imms []string
-			var p2, stats []string
+			var p2, stats, weaks []string
 			for _, vi := range sess.mgr.VerifInstances(key.TargetID(id)) {
 				uids = append(uids, sess.uids[vi.Inst])
 				names = append(names, modNameIdx(vi.Model.Name))
@@ -363,11 +408,19 @@ func (modComp) Exec(c *wire.Case, w *wire.Writer) {
 					s = "-"
 				}
 				stats = append(stats, s)
+				weaks = append(weaks, weakStr(vi.Weakness))
 			}
 			st := eng.attr.Stats(key.TargetID(id))
+			var weakTo []int
+			for d := 1; d <= 7; d++ {
+				if st.IsWeakTo(model.DamageType(d)) {
+					weakTo = append(weakTo, d)
+				}
+			}
 			w.Ob(wire.R("list").I("t", id).Is("uids", uids).Is("names", names).Is("srcs", srcs).Is("durs", durs).Is("counts", counts).
 				Is("maxs", maxs).Is("renew", renew).Is("cadds", cadds).Ss("imms", imms).Ss("p2", p2).S("stats", strings.Join(stats, ";")).
-				F("atkpct", st.GetProperty(prop.ATKPercent)).F("reduce", st.GetProperty(prop.AllDamageReduce)).F("atk", st.ATK()).F("cc", st.GetProperty(prop.CritChance)))
+				F("atkpct", st.GetProperty(prop.ATKPercent)).F("reduce", st.GetProperty(prop.AllDamageReduce)).F("atk", st.ATK()).F("cc", st.GetProperty(prop.CritChance)).
+				S("weaks", strings.Join(weaks, ";")).Is("weak", weakTo))
 		}
 	}
 	modSess = nil
@@ -438,6 +491,10 @@ func (modComp) Gen(r *rand.Rand, tier string, n int) []*wire.Case {
 	one := func(x *wire.Rec) []*wire.Rec { return []*wire.Rec{x} }
 	atk := fmt.Sprintf("%d:%s", int(prop.ATKPercent), wire.FStr(0.25))
 	red := fmt.Sprintf("%d:%s", int(prop.AllDamageReduce), wire.FStr(0.2))
+	// stats that push a computed stat to its lower clamp: a percentage below -100 %, flat parts of either sign
+	negpct := fmt.Sprintf("%d:%s", int(prop.ATKPercent), wire.FStr(-1.5))
+	flat := fmt.Sprintf("%d:%s", int(prop.ATKFlat), wire.FStr(150))
+	negflat := fmt.Sprintf("%d:%s", int(prop.ATKFlat), wire.FStr(-2000))
 	// directed
 	for s := 0; s < 7; s++ {
 		mk(fmt.Sprintf("d-stack-%d", s), add(1, s, 1, 0, 0, ""), add(1, s, 1, 0, 0, ""), add(1, s, 2, 4, 2, ""), add(1, s, 1, 1, 0, ""), add(2, s, 1, 0, 0, ""))
@@ -463,6 +520,9 @@ func (modComp) Gen(r *rand.Rand, tier string, n int) []*wire.Case {
 		add(1, 27, 1, 0, 2, ""), add(1, 27, 2, 0, 2, ""), add(1, 27, 3, 0, 2, ""), wire.R("extcnt").I("t", 1).I("name", 27).I("n", 1))
 	mk("d-stats", add(1, 3, 1, 0, 0, atk), add(1, 3, 2, 0, 0, atk+"|"+red), add(1, 24, 1, 0, 0, ""), add(1, 19, 1, 0, 0, ""), add(1, 19, 1, 0, 0, ""), wire.R("rm").I("t", 1).I("name", 3),
 		wire.R("mutsnap").I("t", 1).I("p", int(prop.ATKPercent)).F("x", 5), wire.R("rm").I("t", 1).I("name", 19))
+	mk("d-weakness-union", add(1, 3, 1, 0, 0, "").S("weak", "4:1"), add(1, 10, 1, 0, 0, "").S("weak", "4:0|5:1"), add(2, 3, 1, 0, 0, "").S("weak", "6:1"), add(2, 10, 1, 0, 0, "").S("weak", "2:0"),
+		add(3, 3, 1, 0, 0, "").S("weak", "2:0|3:1"), add(3, 10, 1, 0, 0, "").S("weak", "2:1"), wire.R("rm").I("t", 1).I("name", 3), wire.R("rm").I("t", 3).I("name", 10))
+	mk("d-stat-clamp", add(1, 3, 1, 0, 0, negpct), add(1, 10, 1, 0, 0, flat), add(2, 3, 1, 0, 0, negflat), add(2, 10, 1, 0, 0, flat), add(3, 3, 1, 0, 0, negpct+"|"+flat), wire.R("rm").I("t", 1).I("name", 3))
 	mk("d-shared-empty-desc", add(1, 3, 1, 0, 0, "").S("share", "e"), add(2, 3, 1, 0, 0, "").S("share", "e"), wire.R("instprop").I("t", 1).I("uid", 1).I("p", int(prop.ATKPercent)).F("x", 0.5),
 		add(3, 3, 1, 0, 0, "").S("share", "e"), wire.R("instprop").I("t", 3).I("uid", 3).I("p", int(prop.AllDamageReduce)).F("x", 0.1), add(2, 10, 1, 0, 0, "").S("share", "e"))
 	mk("d-shared-desc", add(1, 3, 1, 0, 0, atk).S("share", "a"), add(2, 3, 1, 0, 0, atk).S("share", "a"), wire.R("instprop").I("t", 1).I("uid", 1).I("p", int(prop.ATKPercent)).F("x", 0.5),
@@ -483,12 +543,15 @@ func (modComp) Gen(r *rand.Rand, tier string, n int) []*wire.Case {
 			case 0, 1, 2, 3, 4, 5:
 				st := ""
 				if r.Intn(3) == 0 {
-					st = pick(r, atk, red, atk+"|"+red)
+					st = pick(r, atk, red, atk+"|"+red, atk, red, negpct, flat, negpct+"|"+flat, negflat, flat+"|"+red)
 				}
 				op := add(t, name, pick(r, 1, 2, 3), pick(r, 0, 0, 1, 2, 3), pick(r, 0, 0, 1, 2), st)
 				if r.Intn(4) == 0 {
 					st = ""
 					op = wire.R("addmod").I("t", t).I("name", name).I("src", pick(r, 1, 2)).I("dur", pick(r, 0, 1, 2)).I("count", pick(r, 0, 1)).I("max", pick(r, 0, 2, 6)).I("cadd", pick(r, 0, 2)).B("imm", r.Intn(2) == 0).S("stats", "-")
+				}
+				if r.Intn(4) == 0 {
+					op.S("weak", pick(r, "2:1", "2:0|3:1", "6:1", "6:0", "3:1|4:1", "2:0", "7:1|6:0"))
 				}
 				if st != "" && r.Intn(3) == 0 {
 					op.S("share", pick(r, "a", "b")+st)
